@@ -72,6 +72,16 @@ def run(tier, rng, C):
             look = (S('look'), S('${t:n:%s}' % rng.choice('xyz') if nest else '${t:%s}' % rng.choice('xyz')))
             inline[0] = ('m', inline[0][1] + [look])
             refd[0] = ('m', refd[0][1] + [look])
+        if rng.random() < 0.4:
+            # ... and as a whole value by another parameter (which has a layer of its own below the reference)
+            wh = S('${t:n}' if nest else '${t}')
+            kind0 = vals[0][0]
+            lay0 = ('l', [S('w0')]) if kind0 == 'l' else ('m', [(S('w0'), I(0))]) if kind0 == 'm' else None
+            own = lay0 is not None and rng.random() < 0.7
+            for tw in (inline, refd):
+                if own:
+                    tw[0] = ('m', tw[0][1] + [(S('whole'), lay0)])
+                tw[-1] = ('m', tw[-1][1] + [(S('whole'), wh)])
         a, b = C.case_id('i', i), C.case_id('r', i)
         cases.append({'id': a, 'line': V.stack_line(a, 'value', inline), 'show': V.stack_show(inline), 'nontrivial': False})
         cases.append({'id': b, 'line': V.stack_line(b, 'value', refd), 'show': V.stack_show(refd), 'nontrivial': True, 'twin': a})
@@ -89,6 +99,11 @@ def run(tier, rng, C):
         inline = [('m', [(S('t'), v)]) for v in vals]
         refd = [('m', [(S('t'), S('${h%d_%d}' % (j, hops - 1)))]) for j in range(nl)]
         refd[0] = ('m', refd[0][1] + helpers)
+        if i % 2:
+            lay0 = ('l', [S('w0')]) if kind == 'l' else ('m', [(S('w0'), I(0))])
+            for tw in (inline, refd):
+                tw[0] = ('m', tw[0][1] + [(S('whole'), lay0)])
+                tw[-1] = ('m', tw[-1][1] + [(S('whole'), S('${t}'))])
         a, b = C.case_id('di', i), C.case_id('dr', i)
         cases.append({'id': a, 'line': V.stack_line(a, 'value', inline), 'show': V.stack_show(inline), 'nontrivial': False})
         cases.append({'id': b, 'line': V.stack_line(b, 'value', refd), 'show': V.stack_show(refd)[:600], 'nontrivial': True, 'twin': a})
@@ -96,7 +111,7 @@ def run(tier, rng, C):
     def get_t(o):
         v = C.canon_value(o)
         d = {k[1]: x for k, x, _ in v[1] if k and k[0] == 'str'}
-        return (d.get('t', ('<none>',)), d.get('look', ('<none>',)))
+        return (d.get('t', ('<none>',)), d.get('look', ('<none>',)), d.get('whole', ('<none>',)))
 
     def oracle(cases, mobs, iobs):
         fails = []
@@ -116,6 +131,6 @@ def run(tier, rng, C):
         return fails
     rule = ('%d metamorphic twin pairs: a stack of 2-5 layers of key t (mappings with ~/= members, lists, scalars, null; top level '
             'or nested one level) and the same stack with a random subset of layers replaced by references to helper keys '
-            'holding the layer (30%% through a second reference); oracle: both fail or both render t (and a member lookup ${t:x} into it, in 40%% of the pairs) identically; plus twins with 8-14 reference layers each behind 6-10 aliases (more than 64 hops in total); plus '
+            'holding the layer (30%% through a second reference); oracle: both fail or both render t (and a member lookup ${t:x} into it, in 40%% of the pairs) identically (likewise a parameter `whole` that merges ${t} as a whole value over a layer of its own); plus twins with 8-14 reference layers each behind 6-10 aliases (more than 64 hops in total); plus '
             'model/impl comparison on every case; non-trivial = the twin with reference layers' % n)
     return C.standard_run(cases, rule, key_fn=lambda c, m, i, r: 'model-impl-differ', extra_oracle=oracle)
